@@ -196,6 +196,13 @@ class Ctx:
                     if m.has_class(n, "fparser.two.C99Preprocessor")]
 
 
+def track_flags(client, inst):
+    """Every scalar parameter the call site binds (or leaves at its default) is tracked: a flag the engine grows later is then a known
+    constant per instance instead of an unknown that would open infeasible paths."""
+    if inst is not None and inst.args:
+        client.track = set(client.track) | {p for p, v in inst.args.items() if v.kind in ("const", "none")}
+
+
 def inst_env(ctx, inst):
     """Initial abstract environment of BlockBase.match for one call-site instance."""
     m = ctx.m
@@ -484,6 +491,7 @@ def run_scope(ctx, finfo, inst, rule, label, guard="table_name", init_extra=None
     env["$table"] = F.const("none")
     if init_extra:
         env.update(init_extra)
+    track_flags(client, inst)
     env = {k: v for k, v in env.items() if k in client.track}
     fl = F.Flow(m, finfo, client)
     out = fl.run(F.State(env))
@@ -493,9 +501,16 @@ def run_scope(ctx, finfo, inst, rule, label, guard="table_name", init_extra=None
         bad.setdefault(key, (msg, node))
 
     n_exits = 0
+    scoping_start = False
+    if inst is not None and inst.args and inst.args.get("startcls") is not None and inst.args["startcls"].kind == "class":
+        sk = inst.args["startcls"].v
+        scoping_start = sk in m.classes and m.issub(sk, ctx.scoping)
     for st, node in out.ret:
         n_exits += 1
         kind = ret_kind(node, st)
+        if scoping_start and kind == "match" and st.get("$table") != F.const("registered"):
+            note("match-without-table", "a match is reported at `%s` although no symbol table was created for the scoping unit this "
+                 "instance opens: its declarations land in the enclosing scope's table" % (A.text(node) if node else "end"), node)
         if st.get("$scope") != F.const("closed"):
             note("open-at-return|%s" % A.text(node) if node else "open-at-return|end",
                  "a scope entered by this function is still open at `%s`" % (A.text(node) if node else "end of function"), node)
@@ -609,6 +624,7 @@ def run_names(ctx, inst, rule_end, rule_names):
     if end is None or end.kind != "class":
         return
     client = NamesClient(ctx, finfo, inst)
+    track_flags(client, inst)
     env = {k: v for k, v in inst_env(ctx, inst).items() if k in client.track}
     fl = EnumFlow(m, finfo, client)
     out = fl.run(F.State(env))
@@ -776,6 +792,7 @@ def run_consume(ctx, finfo, inst, rule, label, content="content", objvar="obj", 
     env["$content"] = F.const("empty")
     if init_extra:
         env.update(init_extra)
+    track_flags(client, inst)
     env = {k: v for k, v in env.items() if k in client.track}
     fl = ConsumeFlow(m, finfo, client)
     out = fl.run(F.State(env))
@@ -900,6 +917,7 @@ def run_classlist(ctx, inst, rule):
     m = ctx.m
     finfo = ctx.engine
     client = ListClient(ctx, finfo, inst)
+    track_flags(client, inst)
     env = {k: v for k, v in inst_env(ctx, inst).items() if k in client.track}
     for pd in (F.TRUTHY, F.FALSY):
         env2 = dict(env)
